@@ -1,16 +1,16 @@
 import Fpdec.Gen.Sites
 import Fpdec.Model.Pinned
 
-/-! Site ties for C15: the flavour skeleton of each anchor file, as regenerated from /repo on this run,
-equals the skeleton the model was written against. -/
+/-! Site ties for C15 (written by tools/mksites.py): the flavour skeleton of every source file the property's operations
+execute, as regenerated from /repo on this run, equals the skeleton the model was written against. -/
 
 namespace Fpdec.Props.C15
 
-theorem tie_sites_src_unops : Gen.sites_src_unops = Pinned.sites_src_unops := by decide +kernel
-theorem tie_sites_src_lib : Gen.sites_src_lib = Pinned.sites_src_lib := by decide +kernel
 theorem tie_sites_fpdec_core_src_lib : Gen.sites_fpdec_core_src_lib = Pinned.sites_fpdec_core_src_lib := by decide +kernel
-theorem tie_sites_src_binops_cmp : Gen.sites_src_binops_cmp = Pinned.sites_src_binops_cmp := by decide +kernel
-theorem tie_sites_src_num_traits : Gen.sites_src_num_traits = Pinned.sites_src_num_traits := by decide +kernel
 theorem tie_sites_fpdec_core_src_powers_of_ten : Gen.sites_fpdec_core_src_powers_of_ten = Pinned.sites_fpdec_core_src_powers_of_ten := by decide +kernel
+theorem tie_sites_src_lib : Gen.sites_src_lib = Pinned.sites_src_lib := by decide +kernel
+theorem tie_sites_src_unops : Gen.sites_src_unops = Pinned.sites_src_unops := by decide +kernel
+theorem tie_sites_src_num_traits : Gen.sites_src_num_traits = Pinned.sites_src_num_traits := by decide +kernel
+theorem tie_sites_src_binops_cmp : Gen.sites_src_binops_cmp = Pinned.sites_src_binops_cmp := by decide +kernel
 
 end Fpdec.Props.C15
